@@ -1,5 +1,6 @@
 """C12 Coefficient values survive every dtype; no uninitialised memory is returned."""
 import itertools
+import warnings
 import pickle
 
 import numpy
@@ -54,6 +55,25 @@ def data(dt, shape=(3,), offset=0):
     if dt.startswith("float"):
         return (base / 2.0).astype(dt).reshape(shape)
     return base.astype(dt).reshape(shape)
+
+
+def edge(dt, variant=0):
+    """Values whose sums overflow / round / truncate in dtype dt but not in a wider one."""
+    d = numpy.dtype(dt)
+    if d.kind == "b":
+        v = [True, True, False]
+    elif d.kind in "iu":
+        m = int(numpy.iinfo(d).max)
+        v = [m, m - 3, 5]
+    elif d.kind == "f":
+        big = {2: 2048.0, 4: 2.0 ** 24, 8: 2.0 ** 53}[d.itemsize]
+        v = [big, 1.5, 2.75]
+    else:
+        big = {8: 2.0 ** 24, 16: 2.0 ** 53}[d.itemsize]
+        v = [big + 1.5j, 1.5 + 2.75j, 2.75 + big * 1j]
+    if variant:
+        v = v[1:] + v[:1]
+    return numpy.array(v, dtype=d)
 
 
 def enumerate_cases(tier):
@@ -130,7 +150,9 @@ class Checker:
                 continue
             if have.shape != want.shape:
                 return self.fail(op, "shape", cls, "%s: term %s shape %s expected %s" % (label, expo, have.shape, want.shape))
-            same = numpy.array_equal(have, want.astype(have.dtype)) if have.dtype.kind != "f" or True else False
+            with warnings.catch_warnings(), numpy.errstate(all="ignore"):
+                warnings.simplefilter("ignore")
+                same = numpy.array_equal(have, want.astype(have.dtype), equal_nan=have.dtype.kind in "fc")
             if not same:
                 return self.fail(op, "value", cls, "%s: term %s is %s, expected %s" % (label, expo, have.tolist(), want.tolist()))
         for expo, have in got.items():
@@ -263,6 +285,35 @@ def check_pair(d1, d2, ck):
                 ck.run("subtract", cls, lambda: pb - p2,
                        {(0,): numpy.subtract(big_b, b2), (1,): numpy.subtract(big_a, a2)},
                        numpy.subtract(big_a, a2).dtype, lab)
+    # a result dtype requested from the functions that take `dtype=`: every term (not only the constant
+    # one) is computed the way numpy computes it on the coefficient arrays
+    e1, e2 = edge(d1), edge(d1)[::-1].copy()
+    pe = numpoly.polynomial_from_attributes([[0], [1], [2]], [e1, e2, e1], retain_coefficients=True)
+    if pe.dtype == numpy.dtype(d1):
+        with warnings.catch_warnings(), numpy.errstate(all="ignore"):
+            warnings.simplefilter("ignore")
+            for name, npf, call in (
+                    ("sum(dtype=)", lambda v: numpy.sum(v, dtype=d2), lambda: numpoly.sum(pe, dtype=d2)),
+                    ("sum(axis,dtype=)", lambda v: numpy.sum(v, axis=0, dtype=d2), lambda: numpy.sum(pe, axis=0, dtype=d2)),
+                    ("cumsum(dtype=)", lambda v: numpy.cumsum(v, dtype=d2), lambda: numpoly.cumsum(pe, dtype=d2)),
+                    ("method-sum(dtype=)", lambda v: numpy.sum(v, dtype=d2), lambda: pe.sum(dtype=d2)),
+                    ("add.reduce(dtype=)", lambda v: numpy.add.reduce(v, dtype=d2), lambda: numpy.add.reduce(pe, dtype=d2)),
+            ):
+                try:
+                    want = {(0,): npf(e1), (1,): npf(e2), (2,): npf(e1)}
+                except Exception:
+                    continue
+                ck.run(name, c, call, want, want[(0,)].dtype, lab)
+            y1 = edge(d1, 1)
+            py = numpoly.polynomial_from_attributes([[0], [1]], [y1, e1], retain_coefficients=True)
+            for name, uf in (("add(dtype=)", "add"), ("subtract(dtype=)", "subtract")):
+                npf = getattr(numpy, uf)
+                try:
+                    want = {(0,): npf(e1, y1, dtype=d2), (1,): npf(e2, e1, dtype=d2), (2,): npf(e1, numpy.zeros_like(e1), dtype=d2)}
+                except Exception:
+                    continue
+                if py.dtype == numpy.dtype(d1):
+                    ck.run(name, c, lambda: getattr(numpoly, uf)(pe, py, dtype=d2), want, want[(0,)].dtype, lab)
     if d1 == d2:
         a1 = data(d1, (3,), 1)
         p = numpoly.polynomial_from_attributes([[1]], [a1])
